@@ -38,7 +38,8 @@ def q(name, **over):
 
 
 QUICK = [("ops1", q("ops1"), None), ("arith", q("arith"), None), ("misc", q("misc"), None), ("cast", q("cast"), None),
-         ("foppre", q("foppre"), None), ("sim", q("sim", Ill0="2"), (1500, 70))]
+         ("foppre", q("foppre"), None), ("fopbad", q("fopbad"), None), ("conlet", q("conlet"), None),
+         ("sim", q("sim", Ill0="2"), (1500, 70))]
 THOROUGH = QUICK[:-1] + [("data", q("data"), None), ("call", q("call"), None), ("select", q("select"), None),
                          ("moddef", q("moddef"), None), ("dotuse", q("dotuse"), None),
                          ("sim", q("sim", Ill0="2", MaxStmts="8"), (60000, 100))]
